@@ -198,6 +198,9 @@ class Lib:
                 return '%s_none()' % ti.c
             if at.kind == 'opt':
                 return em.e(args[0])
+            lit = self._strlit(args[0])
+            if lit is not None and ti.c in ('opt_str_t', 'opt_sv_t'):
+                return '%s_some(%s)' % (ti.c, self.sv_literal(em, lit))
             return '%s_some(%s)' % (ti.c, em.e(args[0]))
         if ti.kind == 'nullopt':
             return '0'
@@ -510,6 +513,9 @@ class Lib:
                     return '(%s = %s)' % (em.e(args[0]), em.e(args[1]))
                 if t1.kind == 'nullopt':
                     return '(%s.has = 0)' % em.e(args[0])
+                lit = self._strlit(args[1])
+                if lit is not None and t0.c in ('opt_str_t', 'opt_sv_t'):
+                    return '(%s = %s_some(%s))' % (em.e(args[0]), t0.c, self.sv_literal(em, lit))
                 return '(%s = %s_some(%s))' % (em.e(args[0]), t0.c, em.e(args[1]))
         if t0.kind == 'opq' and 'any_completion_handler' in (t0.name or ''):
             # emptiness of a type-erased handler is the zero handle
